@@ -4,7 +4,7 @@
 //
 //	REQ pub <stack> <script> <closeErr> <msgs> <ops> @ inner=<hex> base=<ns> m<id>=<now>:<t0>:<t1> g<layer>.<id>=<now>:<t0>:<t1>
 //	OBS <res>/<inner calls>;…|inner=<topic>[<id>:<for>:<until>:<other>,…];…|gen=<id>,…|probe=<ok>/<err>/<empty>/<repub>|metrics=…|closes=<n>
-//	REQ sub <stack> <subErr> <closeErr> <n> <script> <reads> @ inner=<hex>
+//	REQ sub <stack> <subErr> <close script: one bit per Close call> <n> <script a/n/u/A/N> <reads> @ inner=<hex>
 //	OBS sub=<res>|recv=<id>:<path>:<same object>:<inner settlement>,…|A=<metrics>|close=<res>/<inner closes>|chan=<closed>|B=<metrics>
 //	REQ rt <kp> <ks> <km> <script> <outcomes> @ pub=<hex> sub=<hex>
 //	OBS settle=<a|n…>|pub=<res>:<n msgs>;…|inv=<n>|metrics=…|close=ok
@@ -256,7 +256,7 @@ func genPub(out *wh.Out, a wh.Args, rng *wh.Rng) {
 func randScript(r *wh.Rng, n int) string {
 	b := make([]byte, n)
 	for i := range b {
-		b[i] = "aanu"[r.Intn(4)]
+		b[i] = "aaanuuAN"[r.Intn(8)]
 	}
 	return string(b)
 }
@@ -277,24 +277,35 @@ func statSub(out *wh.Out, c subCase) {
 	out.Add("sub.settle.ack", strings.Count(c.script, "a"))
 	out.Add("sub.settle.nack", strings.Count(c.script, "n"))
 	out.Add("sub.settle.late", strings.Count(c.script, "u"))
+	out.Add("sub.settle.ack_after_context_cancelled", strings.Count(c.script, "A"))
+	out.Add("sub.settle.nack_after_context_cancelled", strings.Count(c.script, "N"))
+	out.Count("sub.close_calls_x" + wh.Itoa(len(c.closes)))
 	if c.reads < c.n {
 		out.Count("sub.close_with_unread_messages")
 	}
 	if c.subErr {
 		out.Count("sub.subscribe_error")
 	}
-	if c.closeErr {
-		out.Count("sub.close_error")
+	for _, e := range c.closes {
+		if e {
+			out.Count("sub.close_error")
+		}
 	}
 }
 
 func genSub(out *wh.Out, a wh.Args, rng *wh.Rng) {
 	alpha := []layerSpec{{kind: 'T', tag: "a"}, {kind: 'T', tag: "b"}, {kind: 'M'}}
 	progs := []subCase{
-		{n: 3, script: "anu", reads: 3},
-		{n: 2, script: "na", reads: 2, closeErr: true},
-		{n: 0, reads: 0},
-		{n: 1, script: "a", reads: 0, subErr: true},
+		{n: 3, script: "anu", reads: 3, closes: []bool{false}},
+		{n: 2, script: "na", reads: 2, closes: []bool{true}},
+		{n: 0, reads: 0, closes: []bool{false}},
+		{n: 1, script: "a", reads: 0, subErr: true, closes: []bool{false}},
+		// settled after the subscription context was cancelled (ack and nack), next to ones settled while subscribed
+		{n: 4, script: "aANn", reads: 4, closes: []bool{false}},
+		{n: 3, script: "NuA", reads: 3, closes: []bool{false}},
+		// the wrapped subscriber's Close fails and the caller retries: every call and its own result pass through
+		{n: 1, script: "a", reads: 1, closes: []bool{true, false}},
+		{n: 2, script: "un", reads: 2, closes: []bool{false, true, false}},
 	}
 	enumStacks(alpha, 3, func(st []layerSpec) {
 		for _, p := range progs {
@@ -325,7 +336,12 @@ func genSub(out *wh.Out, a wh.Args, rng *wh.Rng) {
 			c.reads = rng.Intn(c.n)
 		}
 		c.subErr = rng.Intn(20) == 0
-		c.closeErr = rng.Intn(5) == 0
+		c.closes = []bool{rng.Intn(5) == 0}
+		if rng.Intn(3) == 0 {
+			for j, k := 0, 1+rng.Intn(2); j < k; j++ {
+				c.closes = append(c.closes, rng.Intn(3) == 0)
+			}
+		}
 		req, obs := runSub(c)
 		out.Case(req, obs)
 		statSub(out, c)
